@@ -56,6 +56,7 @@ class Ctx:
         self.viol_cases = {}  # key -> [ {case, detail} ]
         self.inconclusive = []
         self.info = collections.Counter()  # informational observations (never alarms)
+        self.maxes = {}  # name -> largest value observed (e.g. peak bytes per input byte)
         self.cur_case = None
         self.cur_nontrivial = False
         self.exhaustive = []
@@ -101,6 +102,10 @@ class Ctx:
     def note(self, what, n=1):
         self.info[what] += n
 
+    def maxstat(self, name, value):
+        if value > self.maxes.get(name, float("-inf")):
+            self.maxes[name] = value
+
     def viol(self, key, detail=None):
         """Oracle false on an observed execution. `key` names the symptom class (no line numbers, no raw inputs)."""
         self.viol_counts[key] += 1
@@ -137,6 +142,7 @@ class Ctx:
             "inconclusive": self.inconclusive[:20],
             "n_inconclusive": len(self.inconclusive),
             "info": dict(self.info),
+            "maxes": dict(self.maxes),
             "exhaustive": self.exhaustive,
             "deaths": sum(d.deaths for d in self.drivers.values()),
             "wall": time.time() - self.t0,
@@ -200,8 +206,12 @@ def merge(results):
         "n_inconclusive": 0,
         "exhaustive": [],
         "deaths": 0,
+        "maxes": {},
     }
     for r in results:
+        for k_, v_ in r.get("maxes", {}).items():
+            if v_ > m["maxes"].get(k_, float("-inf")):
+                m["maxes"][k_] = v_
         m["hits"].update(r["hits"])
         m["outcomes"].update(r["outcomes"])
         m["info"].update(r["info"])
@@ -353,6 +363,9 @@ def _merge_extra(res, extra_results):
     res["n_inconclusive"] += m["n_inconclusive"]
     res["exhaustive"].extend(e for e in m["exhaustive"] if e not in res["exhaustive"])
     res["deaths"] += m["deaths"]
+    for k_, v_ in m["maxes"].items():
+        if v_ > res["maxes"].get(k_, float("-inf")):
+            res["maxes"][k_] = v_
     return res
 
 
@@ -370,6 +383,7 @@ def write_evidence(mod, tier, seed, res, wall, n_unlisted, inconclusive, listed,
             "class_hits": dict(sorted(res["hits"].items())),
             "outcomes": dict(res["outcomes"]),
             "informational": dict(res["info"]),
+            "max_observed": {k_: round(v_, 3) for k_, v_ in sorted(res.get("maxes", {}).items())},
             "exhaustive_subspaces": res["exhaustive"],
             "exhaustive": False,
             "process_deaths_observed": res["deaths"],
